@@ -179,6 +179,8 @@ def gen_c15_spec(rng: random.Random, minutes_max: int) -> Dict[str, Any]:
         spec["kick_fail"] = sorted(rng.sample(range(nk), rng.randint(1, 4)))
     if rng.random() < 0.25:
         spec["host_tz"] = rng.choice(S.HOST_ZONES + ["Asia/Kathmandu", "Australia/Lord_Howe"])
+    if rng.random() < 0.2:
+        spec["via_api"] = True
     return spec
 
 
@@ -246,7 +248,12 @@ def run_c15(spec: Dict[str, Any]) -> "tuple[Rec, Dict[str, Any]]":
                 if it.get("remove_at") is not None:
                     loop.call_at(it["remove_at"], _remove)
         scheduler = TaskiqScheduler(broker, sources)  # type: ignore[arg-type]
-        t = asyncio.ensure_future(run_mod.run_scheduler_loop(scheduler))
+        if spec.get("via_api"):
+            from taskiq.api import run_scheduler_task  # the programmatic entry point
+
+            t = asyncio.ensure_future(run_scheduler_task(scheduler, run_startup=False))
+        else:
+            t = asyncio.ensure_future(run_mod.run_scheduler_loop(scheduler))
         done, _ = await asyncio.wait({t}, timeout=spec["minutes"] * 60 + 0.75)
         rec.add("end")
         if done:
@@ -497,6 +504,8 @@ class C15(Check):
             cr.counters["runs_longer_than_a_day"] += 1
         if spec.get("host_tz"):
             cr.counters["runs_on_non_utc_host"] += 1
+        if spec.get("via_api"):
+            cr.counters["runs_via_run_scheduler_task"] += 1
         for e in rec.ev:
             cr.events[e["k"]] += 1
         cr.nontrivial = cnt["cron_due_minutes"] + cnt["oneshots_checked"] > 0
